@@ -48,6 +48,8 @@ type KnownPred struct {
 	Kind  string // input | input-prefix | input-contains | any
 	Bytes []byte
 	Arg   map[string]int64 // scalar var equalities
+	Eq    [][2]int         // pairs of byte positions of Tag that must be equal
+	Ne    [][2]int         // pairs of byte positions of Tag that must differ
 }
 
 type Stats struct {
@@ -772,6 +774,24 @@ func (x *Explorer) knownTerm(k KnownPred) *Term {
 			}
 		} else {
 			res = BAnd(res, Cmp(OpEq, t, BV(uint64(val), t.W)))
+		}
+	}
+	if len(k.Eq)+len(k.Ne) > 0 {
+		in, ok := x.inputs[k.Tag]
+		if !ok {
+			return nil
+		}
+		for _, p := range k.Eq {
+			if p[0] >= len(in) || p[1] >= len(in) {
+				return BoolT(false)
+			}
+			res = BAnd(res, Cmp(OpEq, toTerm(in[p[0]], 8), toTerm(in[p[1]], 8)))
+		}
+		for _, p := range k.Ne {
+			if p[0] >= len(in) || p[1] >= len(in) {
+				return BoolT(false)
+			}
+			res = BAnd(res, BNot(Cmp(OpEq, toTerm(in[p[0]], 8), toTerm(in[p[1]], 8))))
 		}
 	}
 	if k.Kind == "" || k.Kind == "args" {
